@@ -80,6 +80,12 @@ ASSERT_CUSTOM_TANGENCY_ANY_ORDER = __import__('os').environ.get('C18_ASSERT_CUST
 # face fields (same constrained faces). Set to True (or C18_FIXED_ATTRIBUTE_LOCAL=1) once the fix is in.
 FIXED_ATTRIBUTE_IS_LOCAL = __import__('os').environ.get('C18_FIXED_ATTRIBUTE_LOCAL') == '1'
 
+# /repo's vertex connection takes the first ring edge as the X axis even when that edge is along the vertex normal (its
+# tangent projection is round-off noise: X not orthogonal to the normal, Y not unit, export_as_mesh / project wrong at that
+# vertex; e.g. a border vertex of a 3-sided open prism; proposed fix scratch/fixes/C18-8-*.diff). Until that is repaired such
+# meshes are discarded for vertex fields. Set to True (or C18_VERTEX_BASIS_ROBUST=1) once the fix is in.
+VERTEX_BASIS_ROBUST = __import__('os').environ.get('C18_VERTEX_BASIS_ROBUST') == '1'
+
 TOL_UNIT = 1e-9
 TOL_SOLVE = 1e-8
 COND_MAX = 1e6
@@ -456,6 +462,8 @@ def min_vertex_normal_norm(V, F):
     if worst < 1e-3:
         return worst
     # an incident edge along the vertex normal has no direction in the tangent plane either (it may be the reference edge)
+    if VERTEX_BASIS_ROBUST:
+        return worst
     N = acc / np.maximum(nrm, 1e-300)[:, None]
     for f in F:
         for k in range(3):
@@ -1519,4 +1527,39 @@ def kf_smooth_normals_crease_numbering(case, violation):
     return False
 
 
-MATCHERS = {"kf_smooth_normals_crease_numbering": kf_smooth_normals_crease_numbering}
+def edge_along_vertex_normal(V, F):
+    """True if some vertex has an incident edge within ~3 degrees of its angle-weighted normal"""
+    A = np.array(V, dtype=float)
+    N = face_normals(V, F)
+    acc = np.zeros((len(V), 3))
+    for iF, f in enumerate(F):
+        for k in range(3):
+            p, q, r = A[f[k]], A[f[(k + 1) % 3]], A[f[(k + 2) % 3]]
+            u, w = q - p, r - p
+            acc[f[k]] += math.atan2(np.linalg.norm(np.cross(u, w)), float(np.dot(u, w))) * N[iF]
+    nrm = np.linalg.norm(acc, axis=1)
+    Nv = acc / np.maximum(nrm, 1e-300)[:, None]
+    for f in F:
+        for k in range(3):
+            a, b = f[k], f[(k + 1) % 3]
+            E = A[b] - A[a]
+            for u in (a, b):
+                if nrm[u] > 1e-9 and float(np.linalg.norm(np.cross(E, Nv[u]))) < 0.05 * float(np.linalg.norm(E)):
+                    return True
+    return False
+
+
+def kf_vertex_basis_edge_along_normal(case, violation):
+    """Vertex field on a mesh where an edge is along a vertex normal: the vertex connection's X axis there is the normalised
+    round-off of a vanishing projection, so the basis is not orthonormal and export_as_mesh / project are wrong at that vertex
+    (only reachable with C18_VERTEX_BASIS_ROBUST=1, otherwise such meshes are discarded)."""
+    if not violation.signature.startswith("export-"):
+        return False
+    steps = case.get("steps") or [case]
+    if not any(c.get("elements") == "vertices" for c in steps):
+        return False
+    return edge_along_vertex_normal(realise(case)["V"], case["F"])
+
+
+MATCHERS = {"kf_smooth_normals_crease_numbering": kf_smooth_normals_crease_numbering,
+            "kf_vertex_basis_edge_along_normal": kf_vertex_basis_edge_along_normal}
